@@ -11,6 +11,21 @@ CLAIMED = {
          "Bounds: counterparty strings <= 12 bytes quick / <= 33 bytes thorough (33 = one past the code's own MaxCounterpartyIDLength), full-id strings <= 8/12 bytes for the parser soundness harness, two pairs of <= 3/5 bytes for distinctness. Trusted: IsValidChannelID summarised as a byte predicate; fmt.Sprintf(%d)/FormatUint summarised relationally (x = sum d_i*10^i). Validated each run by native trace comparison.",
          "DESIGN.md §3 C20"),
 
+ "C08": ("The real forwarder Msg and Query servers and the real middleware receive path on the wired module, against a reference model of the two pause sets: (step) from an ARBITRARY pause state one admin message of any kind, any protocol name (valid, unsupported, unknown, empty) and any batch of arbitrary counterparty strings — result error iff the reference says redundant/invalid, batches all-or-nothing (under E1 rollback), one event per accepted message, every pause query equals the reference sets; (enforce) from an arbitrary pause state a transfer to a symbolic destination over each route through OnRecvPacket is executed iff neither its protocol nor its (protocol, counterparty) pair is paused, else error ack and no bridge request; (history) sequences of messages from the empty state followed by a probe; (limit) batches of exactly 100 and 101 identifiers.",
+         "Bounds: counterparty strings <= 1-2 bytes quick / 2-3 bytes thorough (IBC ids from {channel-0, channel-1, invalid}), batches 1..2 / 1..3, up to 1 / 2 pre-paused pairs plus any subset of paused protocols, histories of 2 / 3 messages, probe domains < 1000. Empty batches (which pause the whole protocol) are outside the claim. Collections are summarised as association lists incl. the SDK default page size of 100; paging is not decided.",
+         "DESIGN.md §3 C08"),
+ "C09": ("The real executor Msg and Query servers and the receive path: from any paused subset of {FEE, SWAP}, k pause/unpause messages with any action name checked against a reference set (result, one event per accepted message, PausedActions and IsActionPaused equal the set), then a transfer whose payload contains the fee action, a second (recording) action, both or none through OnRecvPacket: refused with error ack, no fee paid, action never run iff one of its actions is paused; otherwise fee and delivery exactly as with no pause at all.",
+         "Bounds: k = 2 quick / 4 thorough messages. A recording stub controller is registered under ACTION_SWAP so both identifiers are routable. Relative to the KeySet summary (incl. Iterate) and the bank / ICS-20 models.",
+         "DESIGN.md §3 C09"),
+ "C10": ("Every Msg RPC is driven on the servers that the real keeper.RegisterMsgServers registers (recording configurator), from a non-trivial state, with an ARBITRARY signer string (any bytes up to the bound, other than the authority's bech32 string in either letter case) and arbitrary bodies: must return an error, leave the content of every orbiter collection identical, emit no event, reach no bridge, move no funds. The same harness first shows the authority succeeding with valid content on each component. The RPC list is enumerated from the type information of the current source (interfaces named MsgServer): an RPC without a harness case makes the check inconclusive, not silent.",
+         "Bounds: signer strings <= 50 bytes quick / <= 64 thorough (the authority string has 44). New RPCs are detected but need a harness case to be decided. depinject wiring is outside the claim (the harness wires through the exported constructors as depinject.go does).",
+         "DESIGN.md §3 C10"),
+ "C12": ("One inductive step of the real DispatchPayload / UpdateStats / BuildDenomDispatchedAmounts / state accessors on the IndexedMap summary (with the real index closures): from ARBITRARY pre-existing statistics (entries on the transfer's own keys and on keys differing in source, destination protocol, destination counterparty or denom; any totals and counts), one transfer of any amount over each route, with no action / a symbolic bps fee / a denomination-changing action, the bridge accepting or refusing: on success incoming += received and outgoing += forwarded on exactly the right entries, count += 1, every other entry unchanged, incoming - outgoing = fee; on refusal the statistics are byte-for-byte unchanged.",
+         "Bounds: 1 / 2 pre-existing amount entries and count entries, destination domains concrete (7, 9), amounts < 10^60, totals < 10^70, counts < 2^64-1 (the swallowed statistics-overflow paths are outside the claim). 'Non-orbiter traffic leaves them unchanged' is asserted in C07's harness.",
+         "DESIGN.md §3 C12"),
+ "C17": ("(Validate => Init) symbolic genesis per component — paused protocol / action ids any int32, cross-chain ids with any protocol and arbitrary counterparty bytes (nil entries allowed), dispatched amount / count entries with arbitrary ids, denoms, amounts (nil ids allowed), nil component sections — and the real GenesisState.Validate followed by the real Keeper.InitGenesis on the collections summary (incl. the key codec's refusal of 0x00): Validate()==nil implies InitGenesis does not panic and re-export has every entry. (Round trip) a history of admin messages, parameter updates and transfers from the empty state; Export validates, initialises a second fresh module, re-exports to the same genesis (as multisets), and both modules treat a further transfer identically (same enforcement, same statistics afterwards).",
+         "Bounds: lists of 0..2 / 0..3 ids, 0..1 / 0..2 statistics entries, counterparty strings <= 1-2 / 2-3 bytes, denoms <= 3 / 4 bytes, histories of 2 / 3 operations. JSON (un)marshalling of the genesis document and module.go glue are outside the claim; list order is the store's iteration order (library), compared as multisets.",
+         "DESIGN.md §3 C17"),
  "C04": ("The real FeeController.HandlePacket (attribute extraction and validation, ComputeFeesToDistribute, ComputeFeeAmount, total check, executeAction, destination update) is executed symbolically on a bank-ledger model for ALL amounts in [1,2^256), all uint32 bps, all fixed amounts (any integer, and non-numbers), lists of 0..N entries of mixed kinds with repeated / malformed recipients. Asserted per path: refusal iff one of the stated reasons (incl. both overflow kinds), nothing paid and nothing changed on refusal, each bps credit c satisfies 10000c <= A*bps < 10000(c+1), fixed credits exact, list order, recipients, forwarded = A - sum > 0. Non-linear integer queries decided by z3/cvc5; counterexamples replayed natively.",
          "Bounds: 0..2 entries quick, 0..6 entries thorough (one past MaxFeeRecipients). Recipients are concrete strings (valid, repeated, malformed); bech32 decoding is the SDK's. math.Int is modelled as an SMT Int with the 2^256 limit; reference formulas use unbounded integers.",
          "DESIGN.md §3 C04"),
